@@ -241,8 +241,9 @@ def stdApplyAct (s : SState) (fh fw : List Nat) : Act → SState
         match ob.value with
         | some v =>
           if ob.strong ≠ 1 then
-            let v' : Val := { v with vid := s.nextVid }
-            let s1 := (s.cloneHandles v).alloc v'
+            let v' : Val := if v.shallow then { v with vid := s.nextVid, held := [], weaks := [] }
+                            else { v with vid := s.nextVid }
+            let s1 := (if v.shallow then s else s.cloneHandles v).alloc v'
             ({ s1 with roots := s1.roots.set (idxMod s.roots r) s.heap.length, nextVid := s.nextVid + 1 }.emit (.ret 2)).push [.rcDrop o]
           else if ob.weak ≠ 1 then
             let s1 := (s.alloc v)
@@ -297,6 +298,10 @@ def stdApplyAct (s : SState) (fh fw : List Nat) : Act → SState
   | .setPanic q =>
     match s.useRoot q with
     | some o => s.modVal o (fun v => { v with panics := true })
+    | none => s.badRoot q
+  | .setShallow q =>
+    match s.useRoot q with
+    | some o => s.modVal o (fun v => { v with shallow := true })
     | none => s.badRoot q
   | .upgradeField k =>
     match nthMod fw k with
